@@ -145,7 +145,11 @@ def in_process(sp, col, seed_parts):
         b3 = B.build(other_sp)
         if b3.dsg is not None and S.digest(common.short(other_sp)) != S.digest(common.short(sp)):
             same = b3.dsg.is_same(g)
-            struct_same = _structure(other_sp) == _structure(sp)
+            # (compare what the two INITIALISED graphs contain: a single-option choice is resolved at initialisation,
+            # so two different descriptions can legitimately be the same graph)
+            oa, ob_ = O.instance(g, b), O.instance(b3.dsg, b3)
+            struct_same = _structure(other_sp) == _structure(sp) or \
+                all(oa[k_] == ob_[k_] for k_ in ('nodes', 'choices', 'edges'))
             if same and not struct_same:
                 col.violation('different_graphs_recognised_as_same', {'a': common.short(sp), 'b': common.short(other_sp)},
                               {}, flags)
